@@ -7,10 +7,11 @@
 (* and checks the instance-level theorems.  K independent chains of        *)
 (* instances let TLC's workers run in parallel.                            *)
 (***************************************************************************)
-EXTENDS ScionNetAtk
+EXTENDS ScionNetAtk, SegPlan
 
 CONSTANTS K,          \* number of parallel chains
-          ATTACKS     \* BOOLEAN: also print attack packets with reference verdicts
+          ATTACKS,    \* BOOLEAN: also print attack packets with reference verdicts
+          PLANS       \* BOOLEAN: also check and print the segment request plans (SegPlan)
 
 VARIABLE i
 
@@ -22,6 +23,9 @@ Spec == Init /\ [][Next]_i
 
 \* one evaluation of the instance serves all theorems; a failing theorem is named in the output
 Thm(name, ok) == ok \/ (PrintT(<<"THEOREM-FAILED", name, i, Topos[i].name>>) /\ FALSE)
+\* the request-plan decision table is instance independent: checked and printed once
+TableCheck == i # 0 \/ ~PLANS \/
+  (Thm("PlanTableWellFormed", TableWellFormed) /\ PrintT(<<"PLANTABLE", ToJson(TableOut)>>))
 Check ==
   i = 0 \/
   LET I == InstOf(i) IN
@@ -33,6 +37,9 @@ Check ==
   /\ Thm("OfferedWhenJoinable", OfferedWhenJoinable(I))
   /\ Thm("RefCompleteWrtTopology", RefCompleteWrtTopology(I))
   /\ Thm("AllRefPathsRoundTrip", AllRefPathsRoundTrip(I))
+  /\ (PLANS => /\ Thm("PlanSufficient", PlanSufficient(I))
+               /\ Thm("PlanSufficientAny", PlanSufficientAny(I))
+               /\ PrintT(<<"PLANS", ToJson([inst |-> I.i, plans |-> PlansOut(I)])>>))
   /\ PrintT(<<"INST", ToJson(InstOut(I))>>)
   /\ (ATTACKS => LET A == Attacks(I) IN
         /\ \A a \in A : Thm("AttackTheorems", AttackTheorems(I, a)) /\ PrintT(<<"ATK", ToJson(AtkOut(I, a))>>)
